@@ -3,8 +3,10 @@ true error; acorr, lag_matrix and toeplitz are the plain sums / tables.
 
 What is observed: ``filt.numerator``, ``filt.denominator`` and ``filt.error``
 of the filters returned by ``levinson_durbin``, ``lpc.kautocor`` and
-``lpc.kcovar`` (all three inject floats through ZFilter arithmetic, so the
-outputs are floats even for Fraction inputs), and the lists returned by
+``lpc.kcovar`` (floats whenever an input sample is a float or an int - the
+recursion divides; all-Fraction inputs stay exact since fix F33 and are judged
+with ``==`` by the exactld / exactauto / exactcov families of c10_x.py), and
+the lists returned by
 ``acorr`` / ``lag_matrix`` / ``toeplitz`` (these keep Fractions: compared
 with ``==``).
 
